@@ -161,8 +161,16 @@ def proof_audit(prop):
         code = text.split('--')[0]
         if re.search(FORBIDDEN_RE, code): hits.append(l)
     res['forbidden_hits'] = hits
+    # thorough tier: independent re-check of the compiled .olean files of the property's modules
+    if os.environ.get('VERIF_TIER_EFFECTIVE') == 'thorough':
+        res['leanchecker'] = {}
+        for m in idx['modules']:
+            okc, logc = leanchecker(m)
+            res['leanchecker'][m] = 'ok' if okc else logc[-300:]
+            if not okc: res['problems'].append('leanchecker rejected %s' % m)
+        if any(v != 'ok' for v in res['leanchecker'].values()): res['discharged'] = 0
     if hits: res['problems'].append('forbidden tokens: ' + '; '.join(hits[:3]))
-    res['ok'] = res['discharged'] == len(names) and not hits
+    res['ok'] = res['discharged'] == len(names) and not hits and not any('leanchecker' in x for x in res['problems'])
     res['wall'] = round(time.time() - t0, 2)
     return res
 
@@ -286,7 +294,7 @@ class Report:
                    trusted_base=['Lean 4.33.0 kernel', 'axioms used: ' + ', '.join(sorted(set(a for v in audit['axioms'].values() for a in v)) or ['none']),
                                  'hand-written Lean model of the C++ (tied to /repo by the correspondence counted below)',
                                  'g++ 12.2 / clang++ 14, UBSan trap builds, python harness'],
-                   theorems=audit['theorems'], axioms=audit['axioms'], proof_audit_problems=audit['problems'], tree_hash=tree_hash())
+                   theorems=audit['theorems'], axioms=audit['axioms'], proof_audit_problems=audit['problems'], leanchecker=audit.get('leanchecker', 'thorough tier only'), tree_hash=tree_hash())
         cov.update(self.cov); cov.update(self.notes)
         nviol = len(self.violations) + len(self.breaks) + (0 if audit['ok'] else 1)
         ev = dict(property_id=self.prop, tier=self.tier, seed=self.seed, level='proof', coverage=cov, assumptions=self.assumptions,
